@@ -144,7 +144,9 @@ fn run_case(case: &Value, variation: u64, vbp: &Path, scratch: &Path) -> Vec<Pro
     // buildpack plan (build input) / build plan (detect output)
     let plan_entries: Vec<(String, Value)> = (0..r.usize(0..3)).map(|i| (format!("{} {i}", pick(&mut r, &STRINGS[1..4])), gen_table(&mut r, 2))).collect();
     let plan_path = if c("exe") == "detect" && c("planpath") == "unwritable" { t.join("no such dir").join("plan.toml") } else { t.join("plan.toml") };
-    let plan_sentinel = "# sentinel written by the platform\n";
+    // (long, so that a writer that does not truncate leaves a visible tail behind)
+    let plan_sentinel_owned = format!("# sentinel written by the platform\n{}", "# padding padding padding padding padding padding padding padding\n".repeat(40));
+    let plan_sentinel = plan_sentinel_owned.as_str();
     if c("exe").to_lowercase().contains("build") {
         match c("plan") {
             "ok" => {
@@ -190,7 +192,7 @@ fn run_case(case: &Value, variation: u64, vbp: &Path, scratch: &Path) -> Vec<Pro
     let pre = c("pre") == "yes";
     if pre {
         for n in out_names {
-            fs::write(layers.join(n), format!("# stale {n}\n")).unwrap();
+            fs::write(layers.join(n), stale_content(n)).unwrap();
         }
     }
     // script + argv + environment
@@ -312,7 +314,7 @@ fn run_case(case: &Value, variation: u64, vbp: &Path, scratch: &Path) -> Vec<Pro
                 };
                 if !ok { p5(format!("{n} was provided by the build result but the file is {:?}", got.map(|b| String::from_utf8_lossy(&b).to_string()))); }
             } else {
-                let before: Option<Vec<u8>> = if *n == "store.toml" { store_bytes.clone() } else if pre { Some(format!("# stale {n}\n").into_bytes()) } else { None };
+                let before: Option<Vec<u8>> = if *n == "store.toml" { store_bytes.clone() } else if pre { Some(stale_content(n).into_bytes()) } else { None };
                 if got != before {
                     p5(format!("{n} was not provided by the build result but changed: before {:?}, after {:?}", before.map(|b| String::from_utf8_lossy(&b).to_string()), got.map(|b| String::from_utf8_lossy(&b).to_string())));
                 }
@@ -347,6 +349,11 @@ fn run_case(case: &Value, variation: u64, vbp: &Path, scratch: &Path) -> Vec<Pro
         }
     }
     problems
+}
+
+/// what an earlier, larger build left in an output file
+fn stale_content(n: &str) -> String {
+    format!("# stale {n}\n{}", "# left over from an earlier build with a much larger result ..........\n".repeat(60))
 }
 
 fn hash(s: &str) -> u64 {
